@@ -389,8 +389,8 @@ def _variant_batch(args):
 
 
 def c13(run, scratch):
-    seps = '{" ", ",", " , "}' if run.tier == 'quick' else '{" ", ",", ", ", " , ", "\\t"}'
-    r = tlc.run('LexSpace', _cfg(scratch, 'ls', 'SPECIFICATION Spec\nCONSTANTS\n  SepSet = %s\n  WithFp = %s\nINVARIANT LexTheorem\nINVARIANT Export\nCHECK_DEADLOCK FALSE\n'
+    seps = 'Seps3' if run.tier == 'quick' else 'Seps5'
+    r = tlc.run('LexSpace', _cfg(scratch, 'ls', 'SPECIFICATION Spec\nCONSTANTS\n  SepSet <- %s\n  WithFp = %s\nINVARIANT LexTheorem\nINVARIANT Export\nCHECK_DEADLOCK FALSE\n'
                                  % (seps, 'TRUE' if run.tier == 'thorough' else 'FALSE')), workers=1, heap='4g', timeout=3600)
     if r.invariant_violated or not r.completed:
         raise tlc.TlcFailure('LexSpace: the lexical theorem fails on the specification itself: ' + r.out[-2000:])
